@@ -5,7 +5,7 @@ package main
 // the source position of their statement (check/props/c18.py maps positions to item identifiers).
 //
 //   c18hist <ops> <n> (<namehex> <texthex>){n}
-//     ops: comma separated: L<i> Parse text i, P Process, N<nshex> FindModuleByNamespace
+//     ops: comma separated: L<i> Parse text i, P Process, N<nshex> FindModuleByNamespace, T read every module (c18read)
 //   output, one part per op joined by " ; ":
 //     L<0|1> M=<keyhex>:<srchex>,.. S=..      keys of ms.Modules / ms.SubModules after the load (sorted)
 //     P E=<number of errors> B=<srchex>.(i|c).<k>><srchex>,..   bound import (i) / include (c) statements (sorted)
@@ -66,6 +66,23 @@ func c18binds(ms *yang.Modules) string {
 	return strings.Join(l, ",")
 }
 
+// c18read is a read operation on one module: ToEntry, Print, and the namespace / instantiating-module / read-only
+// queries on the top-level nodes.  A read of a set that has not been processed may fail; what it leaves behind is
+// the point.
+func c18read(m *yang.Module) {
+	defer func() { _ = recover() }()
+	e := yang.ToEntry(m)
+	if e == nil {
+		return
+	}
+	e.Print(io.Discard)
+	for _, c := range e.Dir {
+		c.Namespace()
+		c.InstantiatingModule()
+		c.ReadOnly()
+	}
+}
+
 func runC18Hist(toks []string) string {
 	ops := toks[0]
 	n, _ := strconv.Atoi(toks[1])
@@ -89,6 +106,19 @@ func runC18Hist(toks []string) string {
 				ok = "0"
 			}
 			out = append(out, fmt.Sprintf("L%s M=%s S=%s", ok, c18map(ms.Modules), c18map(ms.SubModules)))
+		case op == "T":
+			// a read between the runs (as in c18proc); prints nothing but its mark
+			for _, mm := range []map[string]*yang.Module{ms.Modules, ms.SubModules} {
+				var keys []string
+				for k := range mm {
+					keys = append(keys, k)
+				}
+				sort.Strings(keys)
+				for _, k := range keys {
+					c18read(mm[k])
+				}
+			}
+			out = append(out, "T")
 		case strings.HasPrefix(op, "N"):
 			ns := string(unhex(op[1:]))
 			m, err := ms.FindModuleByNamespace(ns)
@@ -131,19 +161,7 @@ func runC18Proc(toks []string) string {
 	ms.ParseOptions.DeviateOptions.IgnoreDeviateNotSupported = strings.Contains(opts, "n")
 	ms.ParseOptions.StoreUses = strings.Contains(opts, "u")
 	out := &procOut{Loads: []string{}, Runs: []*runDump{}}
-	read := func(m *yang.Module) {
-		defer func() { _ = recover() }() // a read of an unprocessed set may fail; what it leaves behind is the point
-		e := yang.ToEntry(m)
-		if e == nil {
-			return
-		}
-		e.Print(io.Discard)
-		for _, c := range e.Dir {
-			c.Namespace()
-			c.InstantiatingModule()
-			c.ReadOnly()
-		}
-	}
+	read := c18read
 	for _, op := range strings.Split(ops, ",") {
 		switch {
 		case op == "P":
